@@ -41,6 +41,8 @@ mod t6w2;
 mod t6w3;
 mod t6r3;
 mod t6w4;
+mod t6r4;
+mod t6r4b;
 
 const FEATURES: &[&str] = &["aes-crypto", "bzip2", "deflate", "time", "zstd"];
 
@@ -3947,6 +3949,10 @@ fn main() {
                     "bfn" => t6w4::translate_bfn(&reg, &failed, &all, name),
                     "afn" => t6w2::translate_afn(&reg, &failed, &all, name),
                     "hfn" => t6r3::translate_hfn(&reg, &failed, &all, name),
+                    "efn" => t6r4::translate_efn(&all, name),
+                    "denum" => t6r4b::translate_denum(&all, name),
+                    "dstruct" => t6r4b::translate_dstruct(&all, name),
+                    "dfn" => t6r4b::translate_dfn(&asts, &all, name),
                     "struct" | "sstruct" => {
                         for it in &all {
                             if let Item::Struct(st) = it {
